@@ -19,8 +19,8 @@ open DarkluaModel.Rules
 /-- `make_assignment_local`: no `const` declaration is left, wherever it was nested. -/
 theorem census_zero_make_assignment_local (b : Block) (hw : wfB b = true) :
     census_const (MakeAssignmentLocal.apply b) = 0 :=
-  cover_block MakeAssignmentLocal.processor false constCensus Z {} cover_make_assignment_local _ b ()
-    hw (zB b) (fuelFor_enough {} (fun _ => Nat.zero_le _) (Nat.zero_le _) rfl (Nat.zero_le _) b)
+  cover_block MakeAssignmentLocal.processor false constCensus Z {} _ cover_make_assignment_local _ b ()
+    hw (zB b) (fuelFor_enough {} (fun _ => Nat.zero_le _) (Nat.zero_le _) rfl (Nat.zero_le _) (Nat.zero_le _) b)
 
 -- non-vacuity: a well-formed block with a `const` nested in a function inside a table constructor
 example : wfB (.mk [.callStmt (.call (.var "f") none .tuple
@@ -33,8 +33,8 @@ example : census_const (.mk [.callStmt (.call (.var "f") none .tuple
 /-- `remove_attribute` (no `match` filter): no function attribute is left. -/
 theorem census_zero_remove_attribute (b : Block) (hw : wfB b = true) :
     census_attribute (RemoveAttribute.apply b) = 0 :=
-  cover_block RemoveAttribute.processor false attributeCensus Z {} cover_remove_attribute _ b ()
-    hw (zB b) (fuelFor_enough {} (fun _ => Nat.zero_le _) (Nat.zero_le _) rfl (Nat.zero_le _) b)
+  cover_block RemoveAttribute.processor false attributeCensus Z {} _ cover_remove_attribute _ b ()
+    hw (zB b) (fuelFor_enough {} (fun _ => Nat.zero_le _) (Nat.zero_le _) rfl (Nat.zero_le _) (Nat.zero_le _) b)
 
 example : census_attribute (.mk [.localFn .loc "f" (.mk [] false none none [] ["native"]
     (.mk [] (some (.ret [.fn (.mk [] false none none [] ["native", "checked"] (.mk [] none))]))))] none) = 3 := by
@@ -54,7 +54,7 @@ static evaluator (both encodings), wherever it was nested (conditions, branches 
 if-expression, `typeof(…)`, …). -/
 theorem census_zero_remove_if_expression (truthy : Expr → Bool) (b : Block) (hw : wfB b = true)
     (hf : ifFuelOk b) : census_if_expression (RemoveIfExpression.apply truthy b) = 0 :=
-  cover_block (RemoveIfExpression.processor truthy) false ifExpressionCensus Z Wifx
+  cover_block (RemoveIfExpression.processor truthy) false ifExpressionCensus Z Wifx _
     (cover_remove_if_expression truthy) _ b () hw (zB b) hf
 
 example : wfB (.mk [] (some (.ret [.ifx (.var "a") (.ifx .true .nil [] .false) [(.var "b", .num 0)] (.var "c")]))) = true ∧
